@@ -23,6 +23,41 @@ var replicaSideOps = map[string]string{
 }
 
 func c07(c *Ctx) {
+	// "a replica [reports a transaction committed] only after the primary did": with external commit allowance the store
+	// commits up to commitAllowedUpToTxID. Only AllowCommitUpto (driven by the primary's committed state / the acks)
+	// raises it; every other writer (re)starts it at the committed frontier, never at the precommitted one
+	{
+		r := "C07.10/allowance-raised-only-by-allow"
+		n := 0
+		for _, f := range c.allFns {
+			if !fnInPkgs(f, []string{"embedded/store"}) || len(f.Blocks) == 0 {
+				continue
+			}
+			for i, in := range sites(f, storeTo("ImmuStore.commitAllowedUpToTxID")) {
+				if isFreshAlloc(storeBase(in)) {
+					continue // constructor
+				}
+				n++
+				construct := fmt.Sprintf("%s:commitAllowedUpToTxID#%d", fnName(f), i)
+				if fnName(f) == storeT+"AllowCommitUpto" {
+					c.okTrivial(r, construct, c.pos(in.Pos()), "the allowance entry point")
+					continue
+				}
+				d := desc(in.(*ssa.Store).Val)
+				c.check(hasFieldSuffix(d, "committedTxID"), r, construct, c.pos(in.Pos()), "restarts at the committed frontier", "the commit allowance is set to "+d+" outside AllowCommitUpto: transactions nobody allowed become committable")
+			}
+		}
+		if n < 2 {
+			c.undecided(r, "floor", fmt.Sprintf("%d writers of commitAllowedUpToTxID found (SetExternalCommitAllowance, AllowCommitUpto confirmed by hand)", n))
+		}
+	}
+	// the replication pipeline hands two boolean flags (skipIntegrityCheck, waitForIndexing) through five layers:
+	// at no call are two same-typed arguments passed under each other's name
+	if n := c.ruleNoSwappedArgs("C07.9/flags-forwarded-in-order", []string{"pkg/replication", "pkg/database", "pkg/server", "embedded/store"}, nil); n < 20 {
+		c.undecided("C07.9/flags-forwarded-in-order", "floor", fmt.Sprintf("%d calls with named same-typed arguments analysed", n))
+	} else {
+		c.ok("C07.9/flags-forwarded-in-order", "all-calls", "", fmt.Sprintf("%d calls passing named variables to same-typed parameters: none under another parameter's name", n))
+	}
 	// ---- C07.1 nothing else is written on a replica ----------------------------------------------------------
 	r := "C07.1/replica-gate"
 	pp, ok := c.byPath[modPrefix+"pkg/database"]
